@@ -110,7 +110,18 @@ func (e *Enc) evalArgs(fr *Frame, cs *callSite) {
 func (e *Enc) call(fr *Frame, instr ssa.Instruction, c *ssa.CallCommon, _ types.Type) Val {
 	cs := e.buildCallSite(fr, instr, c)
 	if _, ok := c.Value.(*ssa.Builtin); ok {
-		return e.builtin(fr, instr, c)
+		if e.fc != nil && len(e.fc.Sites) > 0 {
+			e.evalArgs(fr, cs)
+			cs.sig = nil
+			e.siteCall(fr, cs, true)
+		}
+		r := e.builtin(fr, instr, c)
+		if fr.isTop && r != nil {
+			if v, ok := instr.(ssa.Value); ok {
+				e.bindCallResult(fr, instr, TV{V: r, Typ: v.Type()})
+			}
+		}
+		return r
 	}
 	if !cs.invoke {
 		if _, isFn := c.Value.(*ssa.Function); !isFn {
@@ -139,11 +150,71 @@ func (e *Enc) call(fr *Frame, instr ssa.Instruction, c *ssa.CallCommon, _ types.
 }
 
 func (e *Enc) recordRet(cs *callSite, r Val) {
-	tv := TV{V: r, Typ: cs.rt}
-	if r == nil {
-		tv = TV{V: IntLit(0)}
+	if r == nil || cs.instr == nil {
+		return
 	}
-	e.retVals[cs.name] = append(e.retVals[cs.name], tv)
+	e.bindCallResult(e.top, cs.instr, TV{V: r, Typ: cs.rt})
+}
+
+// bindCallResult records the value of a call instruction of the top function; if a contract
+// expression already referred to it (ret() ahead of the encoding order) the placeholder is
+// identified with the real value.
+func (e *Enc) bindCallResult(fr *Frame, instr ssa.Instruction, tv TV) {
+	if pre, ok := e.callResultPre[instr]; ok && tv.Typ != nil {
+		e.s.Assume(Imp(fr.curReach, e.eqVal(pre.V, tv.V, tv.Typ)))
+	}
+	e.callResult[instr] = tv
+}
+
+// callsNamed lists the call instructions of the top function (by source position) whose callee
+// has the given simple name.
+func (e *Enc) callsNamed(name string) []ssa.Instruction {
+	if e.callIndex == nil {
+		e.callIndex = map[string][]ssa.Instruction{}
+		for _, b := range e.fn.Blocks {
+			for _, in := range b.Instrs {
+				ci, ok := in.(ssa.CallInstruction)
+				if !ok {
+					continue
+				}
+				if _, isGo := in.(*ssa.Go); isGo {
+					continue
+				}
+				cs := e.buildCallSite(nil, in, ci.Common())
+				e.callIndex[cs.name] = append(e.callIndex[cs.name], in)
+			}
+		}
+		for _, l := range e.callIndex {
+			sort.SliceStable(l, func(i, j int) bool { return l[i].Pos() < l[j].Pos() })
+		}
+	}
+	return e.callIndex[name]
+}
+
+// retValue: value of the k-th (by source position) call to name in the top function.
+func (e *Enc) retValue(name string, k int) (TV, bool) {
+	calls := e.callsNamed(name)
+	if k >= len(calls) {
+		return TV{}, false
+	}
+	in := calls[k]
+	if tv, ok := e.callResult[in]; ok {
+		return tv, true
+	}
+	if tv, ok := e.callResultPre[in]; ok {
+		return tv, true
+	}
+	v, ok := in.(ssa.Value)
+	if !ok {
+		return TV{}, false
+	}
+	t := v.Type()
+	if tt, isT := t.(*types.Tuple); isT && tt.Len() == 0 {
+		return TV{}, false
+	}
+	tv := TV{V: e.fresh(t, "retpre:"+name), Typ: t}
+	e.callResultPre[in] = tv
+	return tv, true
 }
 
 func (e *Enc) effectFreeResult(fr *Frame, cs *callSite) Val {
@@ -314,6 +385,12 @@ func (e *Enc) pureInline(fn *ssa.Function, args []Val, st *State) (Val, types.Ty
 
 func (e *Enc) paramNames(cs *callSite, fc *FuncContract) []string {
 	var names []string
+	if cs.sig == nil {
+		for i := range cs.args {
+			names = append(names, fmt.Sprintf("a%d", i))
+		}
+		return names
+	}
 	if cs.static != nil {
 		for _, p := range cs.static.Params {
 			names = append(names, p.Name())
